@@ -315,13 +315,93 @@ def builtin_letchain(seg, log, where):
     return seg
 
 
-BUILTINS = {"strlit": builtin_strlit, "narrow": builtin_narrow, "letchain": builtin_letchain}
+def builtin_lastmut(seg, log, where):
+    """dialect rule 9: `let H = V.last_mut();` with arms `Some((a, b)) [if G] => BODY` matching on
+    H.  Verus rejects `&mut` bindings under match guards, so H becomes the *index* of the last
+    element and, inside guard and body of those arms, `*a` is V[hi_].0, `b` is V[hi_].1 and
+    `*a += k` / `*a -= k` become Vec::set of the tuple with the first field changed."""
+    m = re.search(r"let (\w+) = (\w+)\.last_mut\(\);", seg)
+    if not m:
+        return seg
+    H, V = m.group(1), m.group(2)
+    seg = seg[:m.start()] + "let %s = if %s.len() > 0 { Some(%s.len() - 1) } else { None };" % (H, V, V) + seg[m.end():]
+    k = 1
+    pos = 0
+    arm = re.compile(r"Some\(\((\w+), (\w+)\)\)(\s+if\s+)?")
+    while True:
+        masked = rustlex.mask(seg)
+        a = arm.search(masked, pos)
+        if not a:
+            break
+        p0, p1 = a.group(1), a.group(2)
+        if a.start() < m.start() or (not a.group(3) and not masked[a.end():].lstrip().startswith("=>")):
+            pos = a.end()   # not a match arm on H (e.g. an `if let`)
+            continue
+        arrow = masked.find("=>", a.end())
+        if arrow < 0:
+            raise LostAnchor("rule lastmut in %s: arm without `=>`" % where)
+        j = arrow + 2
+        while masked[j] in " \t\n":
+            j += 1
+        if masked[j] == "{":
+            end = rustlex.match_brace(masked, j) + 1
+        else:
+            depth, end = 0, j
+            while end < len(masked):
+                c = masked[end]
+                if c in "([{":
+                    depth += 1
+                elif c in ")]}":
+                    if depth == 0:
+                        break
+                    depth -= 1
+                elif c == "," and depth == 0:
+                    break
+                end += 1
+        guard_body = seg[a.end():end]
+        if p0 != "_":
+            guard_body = re.sub(r"\*%s\s*\+=\s*(\w+)" % re.escape(p0), r"{ let c_ = %s[hi_].0; let s_ = %s[hi_].1; %s.set(hi_, (c_ + \1, s_)); }" % (V, V, V), guard_body)
+            guard_body = re.sub(r"\*%s\s*-=\s*(\w+);?" % re.escape(p0), r"{ let c_ = %s[hi_].0; let s_ = %s[hi_].1; %s.set(hi_, (c_ - \1, s_)); }" % (V, V, V), guard_body)
+            guard_body = re.sub(r"\*%s\b" % re.escape(p0), "%s[hi_].0" % V, guard_body)
+        if p1 != "_" and not p1.startswith("_"):
+            guard_body = re.sub(r"\b%s\b" % re.escape(p1), "%s[hi_].1" % V, guard_body)
+        head = "Some(hi_)" + (a.group(3) or "")
+        seg = seg[:a.start()] + head + guard_body + seg[end:]
+        pos = a.start() + len(head) + len(guard_body)
+        k += 1
+    log.append({"rule": "builtin:lastmut", "matches": k, "where": where})
+    return seg
+
+
+BUILTINS = {"strlit": builtin_strlit, "narrow": builtin_narrow, "letchain": builtin_letchain, "lastmut": builtin_lastmut}
 
 
 def apply_rules(seg, rules, log, where):
     for name, rx, repl, need in rules:
         if name.startswith("builtin:"):
             seg = BUILTINS[rx](seg, log, where)
+            continue
+        if name.startswith("cut:"):
+            # replace the whole brace-delimited statement that starts at each match (the text cut
+            # out is reported as dropped; what stands in for it is the replacement)
+            k, pos = 0, 0
+            while True:
+                masked = rustlex.mask(seg)
+                m = re.compile(rx, re.M).search(masked, pos)
+                if not m:
+                    break
+                ob = m.end() - 1 if masked[m.end() - 1] in "{(" else masked.find("{", m.start())
+                if ob < 0:
+                    raise LostAnchor("rule %s in %s: no `{` after `%s`" % (name, where, rx))
+                cb = rustlex.match_brace(masked, ob)
+                endp = cb + 1
+                seg = seg[:m.start()] + repl + seg[endp:]
+                pos = m.start() + len(repl)
+                k += 1
+            if need is not None and k != need:
+                raise LostAnchor("rule %s in %s matched %d time(s), needs %d: `%s`" % (name, where, k, need, rx))
+            if k:
+                log.append({"rule": name, "matches": k, "where": where, "cut": True})
             continue
         if name.startswith("after:"):
             # insert `repl` after the brace-delimited statement that starts at each match
@@ -457,6 +537,17 @@ def generate(tpl_path, width="u32", vacuity=False):
                     if mb.group(1) not in BUILTINS:
                         raise LostAnchor("unknown builtin rule %s" % mb.group(1))
                     rules.append(("builtin:" + mb.group(1), mb.group(1), None, None))
+                    i += 1
+                    continue
+                mc = re.match(r"//@cut\s+(?:n=(\d+|\*)\s+)?`(.*)`\s+=>>\s*$", l2)
+                if mc:
+                    rep = []
+                    i += 1
+                    while tpl_lines[i][0].strip() != "//@end":
+                        rep.append(tpl_lines[i][0])
+                        i += 1
+                    need = None if mc.group(1) in (None, "*") else int(mc.group(1))
+                    rules.append(("cut:%d" % (len(rules) + 1), mc.group(2), "\n".join(rep), need))
                     i += 1
                     continue
                 ma = re.match(r"//@after\s+(?:n=(\d+|\*)\s+)?(?:nth=(\d+)\s+)?`(.*)`\s+=>>\s*$", l2)
